@@ -5,6 +5,9 @@
                           RoutesMapper.connect    -> gen_connect (parse) (m : mapper) (id : nat) (d : decl) : mapper * res unit
                           Route.__init__          -> gen_route_init (parse) (id : nat) (name pattern : text) (preds : list pred) : res route
                           _compile_route.matcher  -> gen_matcher (groups) (rem : option text) (path : text) : option matchdict
+  pyramid/config/routes.py  add_route, the `elif self.route_prefix:` statement  -> gen_prefix_pattern (prefix : option text) (inherit : bool) (pattern : text) : text
+                          route_prefix_context, the statements before self.begin()  -> gen_nest_prefix (old new : option text) : option text
+                          (fragments; the rest of both functions is shape-pinned with the fragment cut out)
   pyramid/traversal.py    split_path_info         -> gen_split_path_info (p : text) : list text
                           decode_path_info        -> gen_decode_path_info (p : text) : option text
 
@@ -71,6 +74,8 @@ type-checks.  (Adapted from harness/c11/translate.py: the term language, decisio
     m.groupdict().items()           the items ; loop target `k, v` = fst / snd of an item
     d = {} ; d[k] = e ; return d    [] ; d := md_put d k (MText e | MSegs e) ; Some d      (a dict created in this call)
     k == remainder                  is_remainder k rem        split_path_info(v)   gen_split_path_info v
+  self.route_prefix (configurator) old / prefix : option text ; truth value of an Optional str = Some non-empty
+  x.rstrip(c) x.lstrip(c) ; a + b ; '{}/{}'.format(a, b)    rstrip_char c x ; lstrip_char c x ; app a b ; fmt_slash a b
   connect parameters by position    name -> d_name d, pattern -> d_src d, predicates -> d_preds d, static -> d_static d (bool)
   return route (connect)            connected m        a failing Route(..)  ->  connect_failed m e
 """
@@ -81,6 +86,7 @@ import os
 HERE = os.path.dirname(os.path.abspath(__file__))
 FALLBACK = os.path.join(HERE, 'gen_fallback.json')
 
+SELFCFG, NONE = 'self (configurator)', 'None'
 MDICTOWN, GROUPS, ITEMS, PAIR, MATCHFN = ('match dict (own)', 'match object', 'items of groupdict', 'pair of str', 'compiled match')
 TEXT, SEGS, SEGSOWN, BOOL, ERASED, REQ, SELFM, SELFR, ROUTE, ROUTES, PREDS, MDICT, PAT, GEN, INFO, INFONONE, EXCV = (
     'str', 'tuple of str', 'list of str (own)', 'bool', 'erased', 'request', 'self (mapper)', 'self (route)', 'route',
@@ -332,6 +338,36 @@ FUNCS = [
          sig='(mt : pat -> text -> option matchdict) (m : mapper) (method : text) (raw : option text) : tracedout',
          coqret='tracedout', default='ret_none'),
 ]
+def _frag_add_route(fn):
+    """the `elif self.route_prefix:` statement of add_route (the else-branch of `if parsed.hostname:`)"""
+    hits = [n for n in ast.walk(fn) if isinstance(n, ast.If) and isinstance(n.test, ast.Attribute) and n.test.attr == 'hostname'
+            and len(n.orelse) == 1 and isinstance(n.orelse[0], ast.If)]
+    if len(hits) != 1 or hits[0] not in fn.body:
+        raise Problem('no single top-level `if parsed.hostname: .. elif ..:` statement')
+    return [hits[0].orelse[0]]
+
+
+def _frag_prefix_context(fn):
+    """the statements of route_prefix_context before self.begin(): the computation of the nested prefix"""
+    out = []
+    for st in fn.body:
+        if isinstance(st, ast.Expr) and isinstance(st.value, ast.Call):
+            return out
+        out.append(st)
+    raise Problem('no call statement (self.begin()) ends the prefix computation')
+
+
+FRAGS = [
+    dict(file='pyramid/config/routes.py', qual='RoutesConfiguratorMixin.route_prefix_context', gen='gen_nest_prefix', kind='frag',
+         select=_frag_prefix_context, result='route_prefix', coqret='option text',
+         env={0: (None, SELFCFG), 1: (V('new'), OPT(TEXT))}, attrs={'route_prefix': (V('old'), OPT(TEXT))},
+         sig='(old new : option text) : option text', default='None'),
+    dict(file='pyramid/config/routes.py', qual='RoutesConfiguratorMixin.add_route', gen='gen_prefix_pattern', kind='frag',
+         select=_frag_add_route, result='pattern', coqret='text',
+         env={0: (None, SELFCFG), 'pattern': (V('pattern'), TEXT), 'inherit_slash': (('atom', V('inherit')), BOOL)},
+         attrs={'route_prefix': (V('prefix'), OPT(TEXT))},
+         sig='(prefix : option text) (inherit : bool) (pattern : text) : text', default='pattern'),
+]
 MAPPER_ATTRS = {'routelist': ('routelist', 'set_routelist', ROUTES), 'static_routes': ('statics', 'set_statics', ROUTES),
                 'routes': ('routes', 'set_routes', 'dict of routes')}
 RESERVED = {'Route', '_compile_route', 'URLDecodeError', 'all', 'tuple', 'KeyError', 'UnicodeDecodeError'}
@@ -348,8 +384,42 @@ class Tr:
         self.nb += 1
         return '%s_%d' % (_ident(base), self.nb)
 
+    def translate_fragment(self):
+        fn, spec = self.fn, self.spec
+        stmts = spec['select'](fn)
+        names = [a.arg for a in fn.args.args]
+        env = {}
+        for k, v in spec['env'].items():
+            env[names[k] if isinstance(k, int) else k] = v
+        for st in stmts:
+            for n in ast.walk(st):
+                if isinstance(n, (ast.Lambda, ast.ListComp, ast.SetComp, ast.DictComp, ast.GeneratorExp, ast.NamedExpr, ast.Await,
+                                  ast.Yield, ast.YieldFrom, ast.While, ast.With, ast.For, ast.Try, ast.FunctionDef, ast.ClassDef,
+                                  ast.Return, ast.Raise)):
+                    raise Problem('construct outside the subset: %s' % type(n).__name__)
+
+        def k_end(env2, facts):
+            obj, ty = env2.get(spec['result'], (None, 'unbound'))
+            want = spec['coqret']
+            if want == 'text' and ty == TEXT:
+                return obj
+            if want == 'option text':
+                if ty == TEXT:
+                    return A('Some', [obj])
+                if ty == NONE:
+                    return K('None')
+                if ty == OPT(TEXT):
+                    return obj
+            raise Problem('at the end of the fragment %s is a %s' % (spec['result'], ty))
+        return simplify(self.block(stmts, env, {}, k_end, None), {})
+
     # ------------------------------------------------------------ entry
     def translate(self):
+        if self.spec['kind'] == 'frag':
+            return self.translate_fragment()
+        return self._translate_def()
+
+    def _translate_def(self):
         fn, spec = self.fn, self.spec
         if not isinstance(fn, ast.FunctionDef):
             raise Problem('not a plain def')
@@ -552,6 +622,10 @@ class Tr:
                 return env
         raise Problem('assignment target outside the subset: %s' % u(s))
 
+    def is_cfg_attr(self, n, env):
+        return isinstance(n, ast.Attribute) and isinstance(n.value, ast.Name) and n.value.id in env \
+            and env[n.value.id][1] == SELFCFG and n.attr in self.spec.get('attrs', {})
+
     def is_self_attr(self, n, env, attr=None):
         return isinstance(n, ast.Attribute) and isinstance(n.value, ast.Name) and n.value.id in env \
             and env[n.value.id][1] == SELFM and (attr is None or n.attr == attr)
@@ -747,6 +821,13 @@ class Tr:
         obj, ty = self.expr(n, env, facts)
         if ty == BOOL:
             return obj
+        if ty == OPT(TEXT) and (isinstance(n, ast.Name) or self.is_cfg_attr(n, env)):
+            key = n.id if isinstance(n, ast.Name) else '$attr:' + n.attr
+            b = self.fresh(n.id if isinstance(n, ast.Name) else n.attr)
+
+            def narrow(target, val, key=key):
+                target[key] = (val, TEXT)
+            return ('and', [('opt', obj, b, narrow), ('not', ('atom', A('l_is_nil', [V(b)])))])
         if ty in (TEXT, SEGS, SEGSOWN, PREDS):
             return ('not', ('atom', A('l_is_nil', [obj])))
         raise Problem('truth value of a %s is outside the table: %s' % (ty, u(n)))
@@ -761,6 +842,16 @@ class Tr:
             return lit(n.value), TEXT
         if isinstance(n, ast.Constant) and isinstance(n.value, bool):
             return ('const', n.value), BOOL
+        if isinstance(n, ast.Constant) and n.value is None and kind == 'frag':
+            return K('None'), NONE
+        if self.is_cfg_attr(n, env):
+            return env.get('$attr:' + n.attr, self.spec['attrs'][n.attr])
+        if isinstance(n, ast.BinOp) and isinstance(n.op, ast.Add):
+            lobj, lty = self.expr(n.left, env, facts)
+            robj, rty = self.expr(n.right, env, facts)
+            if lty == TEXT and rty == TEXT:
+                return A('app', [lobj, robj]), TEXT
+            raise Problem('+ between a %s and a %s is outside the table: %s' % (lty, rty, u(n)))
         if isinstance(n, (ast.List, ast.Tuple)) and not n.elts:
             return K('[]'), (SEGSOWN if isinstance(n, ast.List) else SEGS)
         if isinstance(n, ast.BoolOp) and isinstance(n.op, ast.Or) and len(n.values) == 2:
@@ -844,6 +935,11 @@ class Tr:
             robj, rty = self.expr(f.value, env, facts)
             args = [self.expr(a, env, facts) for a in n.args]
             one_char = len(args) == 1 and args[0][1] == TEXT and isinstance(n.args[0], ast.Constant) and len(n.args[0].value) == 1
+            if isinstance(f.value, ast.Constant) and f.value.value == '{}/{}' and f.attr == 'format' and len(args) == 2 \
+                    and args[0][1] == TEXT and args[1][1] == TEXT:
+                return A('fmt_slash', [args[0][0], args[1][0]]), TEXT
+            if rty == TEXT and f.attr in ('rstrip', 'lstrip') and one_char:
+                return A(f.attr + '_char', [K('%d%%N' % ord(n.args[0].value)), robj]), TEXT
             if rty == TEXT and f.attr == 'strip' and one_char:
                 return A('strip_char', [K('%d%%N' % ord(n.args[0].value)), robj]), TEXT
             if rty == TEXT and f.attr == 'split' and one_char:
@@ -920,6 +1016,7 @@ WANT = {'pyramid/urldispatch.py': {'Route': ['class'], '_compile_route': ['def']
                                    'URLDecodeError': ['from pyramid.exceptions import URLDecodeError'],
                                    'split_path_info': ['from pyramid.traversal import split_path_info'],
                                    'RoutesMapper': ['class']},
+        'pyramid/config/routes.py': {'RoutesConfiguratorMixin': ['class'], 'urlparse': ['from urllib.parse import urlparse']},
         'pyramid/traversal.py': {'split_path_info': ['def'], 'decode_path_info': ['def'],
                                  'lru_cache': ['from functools import lru_cache']}}
 BUILTINS = ('all', 'tuple', 'KeyError', 'UnicodeDecodeError')
@@ -990,7 +1087,7 @@ def translate_tree(src_root):
         except (OSError, SyntaxError) as e:
             trees[rel] = None
             problems.append('translator: cannot read/parse %s: %s' % (rel, e))
-    for spec in FUNCS:
+    for spec in FRAGS + FUNCS:
         gen, body = spec['gen'], None
         tree = trees.get(spec['file'])
         if tree is not None:
@@ -1021,7 +1118,7 @@ if __name__ == '__main__':
     root = sys.argv[1] if len(sys.argv) > 1 and not sys.argv[1].startswith('--') else '/repo/src'
     if '--write-fallback' in sys.argv:
         fbs = {}
-        for spec in FUNCS:
+        for spec in FRAGS + FUNCS:
             with open(os.path.join(root, spec['file'])) as f:
                 tree = ast.parse(f.read())
             fbs[spec['gen']] = render(Tr(find_def(tree, spec['qual']), spec).translate(), 2)
